@@ -20,7 +20,7 @@ Open Scope Z_scope.
 Definition exn_code (x : exn) : Z :=
   match x with
   | XValue => 1 | XTagNotFound => 2 | XAssertion => 3 | XConn => 4 | XDupSeq => 5 | XEncoding => 6
-  | XAttribute => 7 | XOverflow => 8 | XFIXMessage => 9 | XDupTag => 10 | XKey => 11
+  | XAttribute => 7 | XOverflow => 8 | XFIXMessage => 9 | XDupTag => 10 | XKey => 11 | XOverflowIns => 12
   end.
 
 Definition sx_tagv (tv : tagv) : sx := SL [sx_of_str (fst tv); sx_of_str (snd tv)].
